@@ -77,7 +77,18 @@ func (c callRecord) String() string {
 
 // store is the fake CAS and AC of one execution.
 type store struct {
-	x *execution
+	k  *simsync.Kernel
+	df digest.Function
+
+	// Policy and observation hooks, set by the world that owns the store.
+	single      func(idx int, r *request) int // planned fault of the idx-th completed call (fNone: none); may be nil
+	randomRate  int                           // > 0: every call may also be completed with one of randomKinds (event weight randomRate, against 10)
+	randomKinds []int
+	errOnPutOK  func() bool                                         // may an error of its own be injected into a CAS Put now? (nil: yes)
+	cancel      func(r *request)                                    // cancels the context of the execution that issued r
+	onACWrite   func(r *request, res *remoteexecution.ActionResult) // called at every attempt to write the AC
+	onCall      func(rec callRecord)                                // called for every completed call
+	acWrites    int
 
 	mu      sync.Mutex
 	pending []*request
@@ -90,8 +101,8 @@ type store struct {
 	maxPending int
 }
 
-func newStore(x *execution) *store {
-	return &store{x: x, cas: map[string][]byte{}, ac: map[string]*remoteexecution.ActionResult{}}
+func newStore(k *simsync.Kernel, df digest.Function) *store {
+	return &store{k: k, df: df, cas: map[string][]byte{}, ac: map[string]*remoteexecution.ActionResult{}}
 }
 
 func blobKey(d digest.Digest) string { return d.GetKey(digest.KeyWithoutInstance) }
@@ -124,7 +135,7 @@ func (s *store) hasDigestProto(p *remoteexecution.Digest) bool {
 }
 
 func (s *store) getProtoBlob(p *remoteexecution.Digest) ([]byte, bool) {
-	d, err := s.x.df.NewDigestFromProto(p)
+	d, err := s.df.NewDigestFromProto(p)
 	if err != nil {
 		return nil, false
 	}
@@ -162,13 +173,13 @@ func (s *store) events() []simsync.Event {
 	if len(reqs) > s.maxPending {
 		s.maxPending = len(reqs)
 	}
-	semFree := len(reqs) == 0 || s.x.uploadSemaphoreFree()
+	semFree := len(reqs) == 0 || s.errOnPutOK == nil || s.errOnPutOK()
 	var evs []simsync.Event
 	for _, r := range reqs {
 		r := r
 		evs = append(evs, simsync.Event{Key: "storage " + r.key, Weight: 10, Fire: func() { s.complete(r, -1) }})
-		if s.x.plan.mode == planRandom && s.x.w.k.FaultsOn {
-			for f := fErrBefore; f < nFaultKinds; f++ {
+		if s.randomRate > 0 && s.k.FaultsOn {
+			for _, f := range s.randomKinds {
 				if !faultApplies(r, f) {
 					continue
 				}
@@ -177,7 +188,7 @@ func (s *store) events() []simsync.Event {
 					continue
 				}
 				f := f
-				evs = append(evs, simsync.Event{Key: "storage " + r.key + " =" + faultNames[f], Weight: s.x.plan.rate, Fire: func() { s.complete(r, f) }})
+				evs = append(evs, simsync.Event{Key: "storage " + r.key + " =" + faultNames[f], Weight: s.randomRate, Fire: func() { s.complete(r, f) }})
 			}
 		}
 	}
@@ -195,8 +206,7 @@ func faultApplies(r *request, f int) bool {
 // complete runs on the controller: it decides the outcome of the call,
 // applies its effect and releases the caller.
 func (s *store) complete(r *request, forced int) {
-	x := s.x
-	k := x.w.k
+	k := s.k
 	s.mu.Lock()
 	for i, p := range s.pending {
 		if p == r {
@@ -209,8 +219,8 @@ func (s *store) complete(r *request, forced int) {
 	fault := fNone
 	if forced >= 0 {
 		fault = forced
-	} else if x.plan.mode == planSingle && idx == x.plan.pos {
-		fault = x.plan.kind
+	} else if s.single != nil {
+		fault = s.single(idx, r)
 		if !faultApplies(r, fault) {
 			fault = fErrBefore
 		}
@@ -228,7 +238,9 @@ func (s *store) complete(r *request, forced int) {
 			parseErr = err
 		} else {
 			r.result = m.(*remoteexecution.ActionResult)
-			x.checkACWrite(r, r.result)
+			if s.onACWrite != nil {
+				s.onACWrite(r, r.result)
+			}
 		}
 	}
 	switch {
@@ -254,7 +266,7 @@ func (s *store) complete(r *request, forced int) {
 		if r.buf != nil {
 			r.buf.Discard()
 		}
-		x.cancel()
+		s.cancel(r)
 		resp.err = status.Error(codes.Canceled, "context canceled (injected, before effect)")
 	default:
 		resp = s.apply(r, &rec)
@@ -263,21 +275,21 @@ func (s *store) complete(r *request, forced int) {
 			case fErrAfter:
 				resp = response{err: status.Error(codes.Unavailable, "injected storage failure (acknowledgement lost)")}
 			case fCancelAfter:
-				x.cancel()
+				s.cancel(r)
 				resp = response{err: status.Error(codes.Canceled, "context canceled (injected, after effect)")}
 			case fCancelLater:
-				x.cancel()
+				s.cancel(r)
 			}
 		}
 	}
 	if fault != fNone {
 		k.FaultsFired[faultNames[fault]+"@"+r.store+"."+r.op]++
-		x.faultsFired++
 	}
+	rec.fault = fault
 	rec.err = resp.err
 	s.calls = append(s.calls, rec)
-	if resp.err != nil {
-		x.failures = append(x.failures, rec)
+	if s.onCall != nil {
+		s.onCall(rec)
 	}
 	k.Annotate("%s", rec)
 	r.done <- resp
@@ -285,7 +297,6 @@ func (s *store) complete(r *request, forced int) {
 
 // apply performs the effect of a call on the fake storage.
 func (s *store) apply(r *request, rec *callRecord) response {
-	x := s.x
 	switch r.store + "." + r.op {
 	case "cas.get":
 		data, ok := s.cas[blobKey(r.d)]
@@ -299,17 +310,17 @@ func (s *store) apply(r *request, rec *callRecord) response {
 			if _, ok := s.cas[blobKey(d)]; !ok {
 				b.Add(d)
 			} else {
-				x.w.k.Probe("findmissing-blob-already-stored")
+				s.k.Probe("findmissing-blob-already-stored")
 			}
 		}
 		if r.set.Length() == 0 {
-			x.w.k.Probe("findmissing-empty-set")
+			s.k.Probe("findmissing-empty-set")
 		}
 		return response{missing: b.Build()}
 	case "cas.put":
 		data, err := r.buf.ToByteSlice(maxBlobSize)
 		if err != nil {
-			x.w.k.Probe("cas-put-buffer-error")
+			s.k.Probe("cas-put-buffer-error")
 			return response{err: err}
 		}
 		sum := sha256.Sum256(data)
@@ -322,7 +333,7 @@ func (s *store) apply(r *request, rec *callRecord) response {
 	case "ac.put":
 		s.ac[blobKey(r.d)] = r.result
 		rec.effect = true
-		x.acWritten = true
+		s.acWrites++
 		return response{}
 	}
 	panic(simsync.HarnessError{Msg: "unknown storage call " + r.store + "." + r.op})
@@ -338,10 +349,11 @@ func (s *store) apply(r *request, rec *callRecord) response {
 type fakeCAS struct {
 	s          *store
 	historical bool
+	label      string // prefix of event keys (distinguishes the threads of one worker)
 }
 
 func (c *fakeCAS) Get(ctx context.Context, d digest.Digest) buffer.Buffer {
-	resp := c.s.submit(&request{store: "cas", op: "get", ctx: ctx, d: d, key: "cas.get " + shortKey(blobKey(d))})
+	resp := c.s.submit(&request{store: "cas", op: "get", ctx: ctx, d: d, key: c.label + "cas.get " + shortKey(blobKey(d))})
 	if resp.err != nil {
 		return buffer.NewBufferFromError(resp.err)
 	}
@@ -353,15 +365,15 @@ func (c *fakeCAS) GetFromComposite(ctx context.Context, parentDigest, childDiges
 }
 
 func (c *fakeCAS) Put(ctx context.Context, d digest.Digest, b buffer.Buffer) error {
-	key := "cas.put " + shortKey(blobKey(d))
+	key := c.label + "cas.put " + shortKey(blobKey(d))
 	if c.historical {
-		key = "cas.put historical-execute-response"
+		key = c.label + "cas.put historical-execute-response"
 	}
 	return c.s.submit(&request{store: "cas", op: "put", ctx: ctx, d: d, buf: b, key: key}).err
 }
 
 func (c *fakeCAS) FindMissing(ctx context.Context, digests digest.Set) (digest.Set, error) {
-	resp := c.s.submit(&request{store: "cas", op: "findmissing", ctx: ctx, set: digests, key: fmt.Sprintf("cas.findmissing n=%d", digests.Length())})
+	resp := c.s.submit(&request{store: "cas", op: "findmissing", ctx: ctx, set: digests, key: fmt.Sprintf("%scas.findmissing n=%d", c.label, digests.Length())})
 	if resp.err != nil {
 		return digest.EmptySet, resp.err
 	}
@@ -372,7 +384,10 @@ func (c *fakeCAS) GetCapabilities(ctx context.Context, instanceName digest.Insta
 	return nil, status.Error(codes.Unimplemented, "not used")
 }
 
-type fakeAC struct{ s *store }
+type fakeAC struct {
+	s     *store
+	label string
+}
 
 func (c *fakeAC) Get(ctx context.Context, d digest.Digest) buffer.Buffer {
 	return buffer.NewBufferFromError(status.Error(codes.Unimplemented, "not used"))
@@ -383,7 +398,7 @@ func (c *fakeAC) GetFromComposite(ctx context.Context, parentDigest, childDigest
 }
 
 func (c *fakeAC) Put(ctx context.Context, d digest.Digest, b buffer.Buffer) error {
-	return c.s.submit(&request{store: "ac", op: "put", ctx: ctx, d: d, buf: b, key: "ac.put " + shortKey(blobKey(d))}).err
+	return c.s.submit(&request{store: "ac", op: "put", ctx: ctx, d: d, buf: b, key: c.label + "ac.put " + shortKey(blobKey(d))}).err
 }
 
 func (c *fakeAC) FindMissing(ctx context.Context, digests digest.Set) (digest.Set, error) {
